@@ -311,7 +311,11 @@ def check(case, ctx):
             strip_io = op.get("strip_io", True)
             exp = K.exp_add_subcircuit(before, kst, name, conns, strip_io=strip_io)
             if strip_io:
+                conns0 = {k_: (list(v_) if isinstance(v_, list) else v_) for k_, v_ in conns.items()} if isinstance(conns, dict) else conns
                 ok, r = ctx.call(c.add_subcircuit, kid, name, conns)
+                if isinstance(conns, dict) and conns != conns0:
+                    ctx.violation("compose_modified_connections", f"add_subcircuit changed the caller's connections dict from {conns0} to {conns}")
+                    return
             else:
                 ok, r = ctx.call(c.add_subcircuit, kid, name, conns, strip_io=False)
                 ctx.count("add_subcircuit_strip_io_false")
